@@ -464,6 +464,13 @@ class Fn:
                 f = t.get("f", {})
                 if "path" in f:
                     atoms.add(("outparam", f["path"], bi))
+                    if deep:
+                        # data written through the &mut parameter derives from the other arguments
+                        for a in t["args"]:
+                            p = op_place(a)
+                            if p is not None and p[0] in mrt and l in mrt[p[0]]:
+                                continue
+                            push_op(a)
         return atoms
 
     def forward(self, start_locals, passthru=CONVERSIONS, extra_passthru=None):
